@@ -85,7 +85,7 @@ def post(check, pairs, stats):
 
 CFG = {
     "id": "C08",
-    "lean_modules": ["GeomV.C08.Proofs", "GeomV.C08.ProofsConic", "GeomV.C08.ProofsTmerc", "GeomV.C08.ProofsGeodetic", "GeomV.C08.ProofsKrovak", "GeomV.C08.ProofsUnique", "GeomV.C08.ProofsConverge", "GeomV.C08.ProofsHelmert", "GeomV.C08.ProofsPipeline", "GeomV.C08.ProofsMore", "GeomV.C08.ProofsAea", "GeomV.C08.Ties", "GeomV.C08.TiesCommon", "GeomV.C08.TiesReal", "GeomV.C08.TiesGuards", "GeomV.C08.TiesRoute", "GeomV.C08.TiesAxis"],
+    "lean_modules": ["GeomV.C08.Proofs", "GeomV.C08.ProofsConic", "GeomV.C08.ProofsTmerc", "GeomV.C08.ProofsGeodetic", "GeomV.C08.ProofsKrovak", "GeomV.C08.ProofsUnique", "GeomV.C08.ProofsConverge", "GeomV.C08.ProofsHelmert", "GeomV.C08.ProofsPipeline", "GeomV.C08.ProofsMore", "GeomV.C08.ProofsAea", "GeomV.C08.ProofsAea2", "GeomV.C08.Ties", "GeomV.C08.TiesCommon", "GeomV.C08.TiesReal", "GeomV.C08.TiesGuards", "GeomV.C08.TiesRoute", "GeomV.C08.TiesAxis"],
     "pregen": pregen,
     "post": post,
     "exe": "geomv_c08",
@@ -121,7 +121,11 @@ CFG = {
         "aeaStep_eq", "qD_antitone", "C08_aea_newton_monotone", "C08_aea_newton_quadratic", "C08_aea_straddle",
         "C08_aeaPhi1zLoop_close", "C08_aeaPhi1zLoop_ok", "log_le_half_sub_inv", "qOf_le_two_mul", "aea_start_mem", "C08_aeaPhi1z_close",
         "C08_aeaPhi1z_converges_partial", "C08_aea_inv_close", "C08_aea_inv_within_partial", "aea_bound_numeric",
-        "two_mul_le_log_ratio", "qOf_ge", "aeaLoop_quad", "aeaLoop_lin_quad", "qD_le_cos", "aea_band", "C08_aeaPhi1z_converges", "C08_aea_inv_within"]] + [
+        "two_mul_le_log_ratio", "qOf_ge", "aeaLoop_quad", "aeaLoop_lin_quad", "qD_le_cos", "aea_band", "C08_aeaPhi1z_converges", "C08_aea_inv_within",
+        # phase 4: the solver is odd in (qs, phi) -> both hemispheres; the error of the authalic q is second order in the stop
+        # tolerance -> the 1 cm clause for the ellipsoidal Albers over the reals
+        "aeaStep_odd", "aeaLoop_odd", "asinz_real", "qOf_odd", "aeaPhi1z_odd", "aeaPhi1z_converges_q", "C08_aeaPhi1z_converges_all",
+        "C08_aea_inv_within_all", "sqrt_sub_le", "C08_aea_reproject_within"]] + [
         # tie T1: model = definitions regenerated from the current Go source (rfl)
         T + "Ties." + n for n in ["tie_initMerc", "tie_fwdMerc", "tie_invMerc", "tie_initLcc", "tie_fwdLcc", "tie_invLcc",
                                   "tie_initAea", "tie_fwdAea", "tie_invAea", "tie_aeaPhi1zStep", "tie_initEqdc", "tie_fwdEqdc",
